@@ -196,7 +196,7 @@ mutual
     | off, length, f :: fs =>
       let al := alignUp off 8
       let attrs := storedAttrs (flatFile f)
-      wfFile h f && al + 24 < length && al + sizeFile (flatFile f) ≤ length &&
+      wfFile h f && al + 24 ≤ length && al + sizeFile (flatFile f) ≤ length &&
         (al + hdrLenOfAttrs attrs) % alignmentOf attrs == 0 &&
         wfFiles h (al + sizeFile (flatFile f)) length fs
   def wfFv (h : Hooks) : CFv → Bool
@@ -209,12 +209,12 @@ mutual
         (match ext with
          | none => true
          | some e => e.fvName.length == 16 && ehoOf blocks ext < 65536 && 20 + e.data.length < 4294967296 &&
-                     ehoOf blocks ext + 20 < length) &&
+                     ehoOf blocks ext + 20 ≤ length) &&   -- may end exactly at `length` (/repo eaa94dc), as in Spec.wfFv
         length % 8 == 0 && length < 0x4000000000000000 && 64 ≤ length &&
-        wfFiles h pre length files &&
-        -- the last file is followed by nothing, or by an erased header that lies inside the volume
-        -- (C01's clause; since /repo 8039e86 an erased 24-byte tail is read as free space too)
-        (endFiles pre fl + 24 < length → alignUp (endFiles pre fl) 8 + 32 ≤ length)
+        wfFiles h pre length files
+        -- (no condition on what follows the last file, and a file header may end exactly at `length`:
+        --  since /repo 8039e86 / cce350a the reader takes an erased 24-byte tail for free space and finds
+        --  a header that starts exactly at Length-24 — as in C01's `Spec.wfFv`)
     | .other v => Spec.wfFv v && isOtherFv v
 end
 
